@@ -7,10 +7,12 @@ import (
 	"fmt"
 
 	ipfslog "berty.tech/go-ipfs-log"
+	"berty.tech/go-ipfs-log/enc"
 	"berty.tech/go-ipfs-log/entry"
 	"berty.tech/go-ipfs-log/entry/sorting"
 	"berty.tech/go-ipfs-log/iface"
 	"berty.tech/go-ipfs-log/internal/vx"
+	"berty.tech/go-ipfs-log/io/cbor"
 	"github.com/ipfs/go-cid"
 )
 
@@ -550,3 +552,70 @@ func H_C09_jsonretry() {
 }
 
 var _ = register("H_C09_jsonretry", H_C09_jsonretry)
+
+// H_C09_optreuse: a reader keeps ONE FetchOptions value (and, in half of the runs, one LogOptions value whose ID and
+// IO it sets before each load) and rebuilds two logs that were written with different codecs - one plain, one with
+// sealed links - each time naming the right codec in LogOptions.IO. Both reconstructions equal the originals,
+// whichever is loaded first.
+func H_C09_optreuse() {
+	prop := []string{"C09", "C11"}[vx.Param("AS", 0)] // no block is faulty: "exactly the reachable entries" (C11) is "the original" (C09)
+	api := newMemAPI()
+	ids, _ := realIdentities("userA")
+	plain, err := cbor.IO(&entry.Entry{}, &entry.LamportClock{})
+	if err != nil {
+		panic(err)
+	}
+	k, err := enc.NewSecretbox(linkKeyBytes(5))
+	if err != nil {
+		panic(err)
+	}
+	codecs := []iface.IO{plain, plain.ApplyOptions(&cbor.Options{LinkKey: k})}
+	names := []string{"P", "Q"}
+	var logs [2]*ipfslog.IPFSLog
+	for i := range logs {
+		logs[i] = newLogOpt(api, ids[0], &ipfslog.LogOptions{ID: names[i], IO: codecs[i]})
+		for j := 0; j < 2+i; j++ {
+			if _, err := logs[i].Append(ctx, []byte{byte('a' + i), byte('0' + j)}, nil); err != nil {
+				panic(err)
+			}
+		}
+	}
+	first := vx.Choice("first", 2)
+	loader := vx.Choice("loader", 4)
+	vx.Sig("loader=" + loaderNames[loader])
+	shareLO := vx.Choice("shareLogOptions", 2) == 1
+	efo, fo := &entry.FetchOptions{}, &ipfslog.FetchOptions{}
+	lo := &ipfslog.LogOptions{}
+	for step := 0; step < 2; step++ {
+		i := first ^ step
+		L := logs[i]
+		if !shareLO {
+			lo = &ipfslog.LogOptions{}
+		}
+		lo.ID, lo.IO = names[i], codecs[i]
+		var N *ipfslog.IPFSLog
+		var err error
+		switch loader {
+		case ldManifest:
+			m, merr := L.ToMultihash(ctx)
+			vx.Assert(prop, merr == nil, "publishing the manifest of a non-empty log succeeds")
+			N, err = ipfslog.NewFromMultihash(ctx, api, ids[0], m, lo, fo)
+		case ldJSON:
+			N, err = ipfslog.NewFromJSON(ctx, api, ids[0], L.ToJSONLog(), lo, efo)
+		case ldEntries:
+			N, err = ipfslog.NewFromEntry(ctx, api, ids[0], L.Heads().Slice(), lo, efo)
+		default:
+			N, err = ipfslog.NewFromEntryHash(ctx, api, ids[0], L.Heads().Slice()[0].GetHash(), lo, fo)
+		}
+		vx.Assert(prop, err == nil && N != nil, "loading a fully stored log succeeds (option values kept between loads)")
+		if err != nil || N == nil {
+			return
+		}
+		vx.Assert(prop, sameSet(hashSet(entriesOf(N)), hashSet(entriesOf(L))), "the rebuilt log has the same set of entries (option values kept between loads of two logs)")
+		vx.Assert(prop, sameSet(hashSet(N.Heads().Slice()), hashSet(L.Heads().Slice())), "the rebuilt log has the same heads (option values kept between loads of two logs)")
+		vx.Assert(prop, sameSeq(N.Values().Slice(), L.Values().Slice()), "the rebuilt log has the same linearised values (option values kept between loads of two logs)")
+	}
+	vx.Cover("two-codecs-one-options-value")
+}
+
+var _ = register("H_C09_optreuse", H_C09_optreuse)
